@@ -122,6 +122,7 @@ pub struct GatewayBinder {
     pub operator: String,
     pub set_hash: BTreeMap<String, [u8; 32]>,
     pub probes: BTreeMap<String, Address>,
+    pub apps: BTreeMap<String, Address>,
 }
 
 impl GatewayBinder {
@@ -145,6 +146,7 @@ impl GatewayBinder {
             operator: jstr(init, "operator"),
             set_hash: BTreeMap::new(),
             probes: BTreeMap::new(),
+            apps: BTreeMap::new(),
         };
         // contract principals (probe contracts) named by the instance
         if let Some(ps) = inst.get("Probes").and_then(|x| x.as_array()) {
@@ -166,6 +168,22 @@ impl GatewayBinder {
             let sets: Vec<String> = jstrs(init, "hashByEpoch");
             let ok = b.construct(&sets);
             assert!(ok, "initial deployment failed");
+            // applications behind the executable interface (bound before any message names them)
+            if let Some(apps) = inst.get("Apps").and_then(|x| x.as_array()) {
+                let gw = b.gw.clone().unwrap();
+                for a in apps {
+                    let name = a.as_str().unwrap();
+                    let env = b.cx.env.clone();
+                    let id = if name == "ex" {
+                        let gas = b.cx.addr("gas_service_unused");
+                        env.register(example::Example, (gw.clone(), gas))
+                    } else {
+                        env.register(crate::probe::miniapp::MiniApp, (gw.clone(),))
+                    };
+                    b.cx.bind(name, &id);
+                    b.apps.insert(name.to_string(), id);
+                }
+            }
             b.cx.take_events();
         }
         b
@@ -401,6 +419,19 @@ impl GatewayBinder {
 
     pub fn decode_event(&mut self, c: &Address, topics: &SVec<Val>, data: &Val) -> Option<J> {
         let env = self.cx.env.clone();
+        if let Some((an, _)) = self.apps.iter().find(|(_, a)| *a == c) {
+            let an = an.clone();
+            let name = sym_name(&env, &topics.get(0)?)?;
+            if name != "executed" {
+                return Some(json!({"k": name}));
+            }
+            let chain = sstr_to_string(&SStr::try_from_val(&env, &topics.get(1)?).ok()?);
+            let id = sstr_to_string(&SStr::try_from_val(&env, &topics.get(2)?).ok()?);
+            let src = sstr_to_string(&SStr::try_from_val(&env, &topics.get(3)?).ok()?);
+            let (payload,): (Bytes,) = <(Bytes,)>::try_from_val(&env, data).ok()?;
+            let key = self.inst["Keys"].as_object().unwrap().iter().find(|(_, k)| k["chain"] == json!(chain) && k["id"] == json!(id)).map(|(n, _)| n.clone()).unwrap_or("UnknownKey".into());
+            return Some(json!({"k": "app_executed", "app": an, "key": key, "src": src, "payload": self.payload_name(&bytes_to_vec(&payload))}));
+        }
         if Some(c) != self.gw.as_ref() {
             return None;
         }
@@ -584,6 +615,17 @@ impl GatewayBinder {
                     let args: SVec<Val> = svec![&env, caller.into_val(&env), chain.into_val(&env), addr.into_val(&env), payload.into_val(&env)];
                     self.call_rooted(act, "call_contract", args)
                 };
+                self.finish(r, |_, _| unit())
+            }
+            "AppExecute" => {
+                let app = self.apps[act["app"].as_str().unwrap()].clone();
+                let k = self.inst["Keys"][act["key"].as_str().unwrap()].clone();
+                let chain = self.cx.s(k["chain"].as_str().unwrap());
+                let id = self.cx.s(k["id"].as_str().unwrap());
+                let src = self.cx.s(act["src"].as_str().unwrap());
+                let payload = self.cx.bytes(&self.payload_bytes(act["payload"].as_str().unwrap()));
+                let args: SVec<Val> = svec![&env, chain.into_val(&env), id.into_val(&env), src.into_val(&env), payload.into_val(&env)];
+                let r = self.cx.call_auth(&[], &app, "execute", args);
                 self.finish(r, |_, _| unit())
             }
             "TransferOwnership" | "TransferOperatorship" => {
